@@ -7,6 +7,7 @@ import (
 	"fmt"
 	"math/big"
 	"math/rand"
+	"regexp"
 	"strings"
 
 	"verif/core"
@@ -209,14 +210,21 @@ func checkC15(c *core.Ctx) {
 					c.Violate("strings", sh, sig+":unstable", fmt.Sprintf("ParseDegree(%q) = %q does not parse back to itself", d.S, d.Str), nil)
 					continue
 				}
-				if iv, err := theory.ParseNotation(d.S); err == nil {
-					// canonical notation: must denote exactly that interval
-					if iv.N != d.N || iv.Q != q {
-						c.Violate("strings", sh, sig+":meaning", fmt.Sprintf("notation %q denotes %v but parses as %s %d", d.S, iv, q, d.N), nil)
-						continue
-					}
-					c.Nontrivial(sig)
+				// the notation: a number with at most one mark (b, bb, bbb, #, ##) in front of it or behind it
+				canon := d.S
+				if m := notationSuffix.FindStringSubmatch(d.S); m != nil {
+					canon = m[2] + m[1]
 				}
+				iv, err := theory.ParseNotation(canon)
+				if err != nil {
+					c.Violate("strings", sh, sig+":not-notation", fmt.Sprintf("%q is not the notation of any interval (surplus or mixed marks) but ParseDegree reads it as %s %d", d.S, q, d.N), nil)
+					continue
+				}
+				if iv.N != d.N || iv.Q != q {
+					c.Violate("strings", sh, sig+":meaning", fmt.Sprintf("notation %q denotes %v but parses as %s %d", d.S, iv, q, d.N), nil)
+					continue
+				}
+				c.Nontrivial(sig)
 			}
 		})
 		// canonical strings that must be accepted: checked from the other side
@@ -562,6 +570,8 @@ func checkC15(c *core.Ctx) {
 		c.Nontrivial(sig + root.String())
 	})
 }
+
+var notationSuffix = regexp.MustCompile(`^([0-9]+)(b{1,3}|#{1,2})$`)
 
 func mustInt(v any) int {
 	i, _ := asInt(v)
